@@ -8,8 +8,8 @@
 (***************************************************************************)
 EXTENDS RateLimiter, TraceBase
 
-VARIABLES l, scn, cfg, now, tracked, pot, potT, seen, bad, drift, nev
-vars == <<l, scn, cfg, now, tracked, pot, potT, seen, bad, drift, nev>>
+VARIABLES l, scn, cfg, now, tracked, pot, potT, seen, tied, bad, drift, nev
+vars == <<l, scn, cfg, now, tracked, pot, potT, seen, tied, bad, drift, nev>>
 
 Ev == Log[l]
 IsEvent(e) == l <= Len(Log) /\ Log[l].e = e /\ l' = l + 1
@@ -18,18 +18,18 @@ GetOr(f, s, d) == IF s \in DOMAIN f THEN f[s] ELSE d
 PutF(f, s, v) == [x \in DOMAIN f \cup {s} |-> IF x = s THEN v ELSE f[x]]
 
 Init == /\ l = 1 /\ scn = "" /\ cfg = [rates |-> <<>>, tps |-> 1, cap |-> 1, level |-> "http", qualified |-> TRUE]
-        /\ now = 0 /\ tracked = NoFn /\ pot = NoFn /\ potT = NoFn /\ seen = NoFn
+        /\ now = 0 /\ tracked = NoFn /\ pot = NoFn /\ potT = NoFn /\ seen = NoFn /\ tied = FALSE
         /\ bad = <<>> /\ drift = <<>> /\ nev = 0
 
 Reset == /\ IsEvent("Reset")
          /\ scn' = Ev.scn /\ cfg' = Ev.cfg
-         /\ now' = 0 /\ tracked' = NoFn /\ pot' = NoFn /\ potT' = NoFn /\ seen' = NoFn
+         /\ now' = 0 /\ tracked' = NoFn /\ pot' = NoFn /\ potT' = NoFn /\ seen' = NoFn /\ tied' = FALSE
          /\ UNCHANGED <<bad, drift>> /\ nev' = nev + 1
 
 Adv == /\ IsEvent("Adv")
        /\ now' = now + Ev.d
        /\ bad' = ReportAll(bad, scn, l, << <<Ev.t = now + Ev.d, "TRACE.ClockConsistent">> >>)
-       /\ UNCHANGED <<scn, cfg, tracked, pot, potT, seen, drift>> /\ nev' = nev + 1
+       /\ UNCHANGED <<scn, cfg, tracked, pot, potT, seen, tied, drift>> /\ nev' = nev + 1
 
 Rates == cfg.rates
 NR == Len(Rates)
@@ -46,6 +46,7 @@ Req ==
          victim == IF NeedsVictim(tracked, cfg.cap, cfg.tps, now, s)
                      THEN CHOOSE v \in VictimsFor(tracked, cfg.tps, now, s) : TRUE ELSE s
          m == ConsumeRates(tracked, Rates, cfg.cap, cfg.tps, now, s, n, victim, TRUE, FALSE)
+         tie == NeedsVictim(tracked, cfg.cap, cfg.tps, now, s) /\ Cardinality(VictimsFor(tracked, cfg.tps, now, s)) > 1
      IN
      /\ bad' = ReportAll(bad, scn, l, <<
           <<(cfg.qualified /\ Ev.out = "ok") => \A i \in 1..NR : p1[i] <= PotBound(Rates[i]), "C03.AdmissionBound">>,
@@ -66,14 +67,15 @@ Req ==
      /\ potT' = IF Ev.out = "ok" THEN PutF(potT, s, now) ELSE potT
      /\ seen' = PutF(seen, s, now)
      /\ tracked' = m.tracked
-     /\ drift' = IF cfg.level = "http" /\ (m.out # Ev.out \/ (m.out = "limit" /\ m.delay # Ev.delay))
+     /\ tied' = (tied \/ tie)        \* several entries equally near to expiry: the model cannot know which one the heap gives up
+     /\ drift' = IF cfg.level = "http" /\ ~tied /\ ~tie /\ (m.out # Ev.out \/ (m.out = "limit" /\ m.delay # Ev.delay))
                    THEN Report(drift, scn, l, "tl.consumeRates") ELSE drift
   /\ UNCHANGED <<scn, cfg, now>> /\ nev' = nev + 1
 
 (* hook events of the concurrent driver (frozen clock): every admitted amount of a source is counted *)
 End == /\ IsEvent("End")
        /\ JsonSerialize("result.json", [bad |-> bad, drift |-> drift, events |-> nev, lines |-> l])
-       /\ UNCHANGED <<scn, cfg, now, tracked, pot, potT, seen, bad, drift, nev>>
+       /\ UNCHANGED <<scn, cfg, now, tracked, pot, potT, seen, tied, bad, drift, nev>>
 
 Next == Reset \/ Adv \/ Req \/ End
 Spec == Init /\ [][Next]_vars
